@@ -80,7 +80,7 @@ def run(tier, seed, replay):
     names = ["raw_peek", "peek", "pop", "get_next_token"] + list(SL.parser_contracts())
     replays = {"Lexer." + n: replay_any for n in names}
     rawpos_lemmas(chk)
-    run_parallel(chk, SL.lexer_jobs(), SL.INSTALLS, replays=replays, procs=14)
+    run_parallel(chk, SL.lexer_jobs(tier), SL.INSTALLS, replays=replays, procs=14)
 
     nat = native_search()
     import re as _re0
@@ -147,8 +147,13 @@ def run(tier, seed, replay):
         "Lexer.__iter__ (two-line generator over get_next_token) is not under contract; the composition lemma "
         "'Pos at entry of every call + the get_next_token contract => every yielded token carries a true position' "
         "is immediate from position_kept and is not machine-checked",
-        "pop's call-site clauses functional2/functional3 (text of 2 or 3 popped logical characters) are ASSUMED "
-        "(the one-character clause functional1 is proved); they are used by parse_operator only",
+        ("pop's call-site clauses functional1..functional3 (text of 1, 2 or 3 popped logical characters) are all "
+         "proved in this tier on the real body with the outer loop unrolled (the iteration number is visible to the "
+         "splice loop's invariant)" if tier == "thorough" else
+         "pop's call-site clause functional3 (text of 3 popped logical characters) is ASSUMED in the quick tier "
+         "(discharged in the thorough tier, about two minutes of z3); functional1 and functional2 are proved here on "
+         "the real body with the outer loop unrolled, the iteration number being visible to the splice loop's "
+         "invariant; functional3 is used by parse_operator only"),
         "known-finding class K7 is excluded by precondition: a backslash followed by a tab, or by a character "
         "spelled as digraph/trigraph, inside char/string literals",
     ]
